@@ -588,8 +588,19 @@ let cmd_conc (file : string) : unit =
     | _ -> ()) lines;
   Printf.printf "done steps=%d snapshots_ok=%b\n" !nsteps (Conc.snapshots_okb !st)
 
+(* api: the verdict of the lifetime-flow check for every row of the generated signature table *)
+let cmd_api () : unit =
+  L.iter (fun f ->
+    let owner = string_of_coq f.ApiSig.f_owner and tr = string_of_coq f.ApiSig.f_trait and name = string_of_coq f.ApiSig.f_name in
+    let sens_out = ApiFlow.sens_in f && L.exists (fun c ->
+      let t = string_of_coq c.ApiSig.c_ty in ApiFlow.is_anchor_ty c.ApiSig.c_ty || t = "Bytes" || t = "&") f.ApiSig.f_out in
+    Printf.printf "%s|%s|%s|%d|%d|%s\n" owner tr name (if ApiFlow.anchoredb f then 1 else 0) (if sens_out then 1 else 0)
+      (string_of_coq f.ApiSig.f_body)) ApiSig.api;
+  Printf.printf "none_send=%b db_shareable=%b\n" ApiFlow.none_send ApiFlow.db_shareable
+
 let () =
   match Array.to_list Sys.argv with
+  | _ :: "api" :: _ -> cmd_api ()
   | _ :: "spec" :: hist :: fout :: eout :: _ -> cmd_spec hist fout eout
   | _ :: "select" :: ps :: files -> cmd_select (int_of_string ps) files
   | _ :: "inv" :: ps :: files -> cmd_inv (int_of_string ps) files
